@@ -38,6 +38,7 @@ func checkC19(c *Ctx, r *Report) {
 	dotRemovedBehindIsFqdn(c, r, "C19.R4.dot-removed-behind-isfqdn")
 	trimEmptyOrigin(c, r, "C19.R6.trim-empty-origin")
 	round12(c, r, "C19")
+	round13(c, r, "C19")
 }
 
 // c19Scan: R1.
